@@ -4,8 +4,13 @@ package sim
 
 import (
 	"bytes"
+	"context"
+	"errors"
 	"fmt"
 	"time"
+
+	"github.com/aldas/go-modbus-client/packet"
+	"github.com/aldas/go-modbus-client/server"
 )
 
 func init() {
@@ -436,6 +441,28 @@ func runC16(rc *RunCtx) {
 		}
 	}
 
+	// --- the assembler used directly (it is exported: applications with a transport of their own feed it their reads and
+	// queue what it returns for a writer): a reply it has returned stays what it was while it handles the next read ---
+	if t.Choose(3) == 0 {
+		asm := &server.ModbusTCPAssembler{Handler: directHandler{dev: NewDevice(Mix(devSeed, 99, 7))}}
+		var held, copies [][]byte
+		for _, r := range subj.Reqs {
+			if r.Class != "valid" && r.Class != "unsupported_fc" && r.Class != "out_of_range" {
+				continue
+			}
+			reply, _ := asm.ReceiveRead(context.Background(), r.Frame, len(r.Frame))
+			held = append(held, reply)
+			copies = append(copies, append([]byte(nil), reply...))
+		}
+		for i := range held {
+			if !bytes.Equal(held[i], copies[i]) {
+				rc.Violate("returned_reply_changed", "assembler_used_directly", "the reply the assembler returned for read #%d was %x; after it handled the following reads the same slice reads %x", i, trunc(copies[i], 24), trunc(held[i], 24))
+				break
+			}
+		}
+		rc.Probe("assembler_used_directly")
+	}
+
 	// --- history independence: the reply to a frame does not depend on what else was on the connection ---
 	if alone < len(co.Status) && subj.Reqs[alone].Mode != HPanic {
 		one := &SrvScenario{ReadTimeout: sc.ReadTimeout, ReplyTimeout: sc.ReplyTimeout, StatelessDevice: true, SharedHandlerErr: sc.SharedHandlerErr}
@@ -522,4 +549,15 @@ func checkPipelinedSubject(rc *RunCtx, subj *SrvConnPlan, co *SrvConnOut, handle
 		}
 	}
 	rc.Probe("pipelined_subject")
+}
+
+// directHandler answers from a reference device, without the simulator (for the assembler used outside a server).
+type directHandler struct{ dev *Device }
+
+func (h directHandler) Handle(ctx context.Context, req packet.Request) (packet.Response, error) {
+	tid, unit, pdu, ok := UnframeTCP(req.Bytes())
+	if !ok {
+		return nil, errors.New("handler could not unframe the request it was given")
+	}
+	return rawResp{fc: req.FunctionCode(), b: FrameTCP(tid, unit, h.dev.Exec(pdu))}, nil
 }
